@@ -172,7 +172,7 @@ func VerifH_C09_mergeRuns() {
 // C09.K3 runLength against a linear scan
 func VerifH_C09_runLength() {
 	vUnwind(64)
-	n := vChoose("n", 0, 6)
+	n := vChoose("n", 0, 10)
 	rows, keys := verifSortedInput(0, n)
 	bound := Row{makeValueInt64(int64(vI16("bound")))}
 	max := -vChoose("excludeTies", 0, 1)
